@@ -70,6 +70,7 @@ def digest(bs: bytes):
 
 class Plugin:
     ID = "C01"
+    HEADER = H.Tokens.HEADER
     RUN_MODULE = "C01.Run"
     GEN = ["Ssdp", "Types", "DateMatchers"]
     DEPENDS = ["C16", "C03", "C08"]
@@ -307,7 +308,7 @@ class Plugin:
         urls = C.c_list((url_coq(tok, u, i) for u, i in obs["urls"].items()), "(pystr * url_info)")
         body = (f"(({urls}, {C.c_list(dgs, 'dgram')}, {C.c_list(steps, 'dec_step')}) : input, "
                 f"({digs}, {C.c_list(sobs, 'dec_obs')}) : observation)")
-        return f"({tok.lets()}{body})"
+        return "(" + tok.wrap(body) + ")"
 
     # ------------------------------------------------------------------ evidence helpers
     def nontrivial(self, case, obs):
